@@ -171,6 +171,11 @@ TraceSpec == TraceInit /\ [][TraceNext]_tvars
 \* explanation of the observed execution (at full width: 3 channels, 16 semaphore bits, 16-bit values)
 ObservedOK == ValuesOK /\ OwedSafe /\ (\A t \in Threads : Blocked(t) => vS.held[Need(t)] # t)
 
+\* hammer episodes (harness/drivers/hammer_rec.cpp) receive blindly on purpose -- a receive that finds the mailbox never
+\* written returns the reset value 0, which is no value of C19's "every value the receiver reads"; everything else stands
+ObservedHammer == /\ vS.bad \subseteq {"received a value nobody sent"}
+                  /\ OwedSafe /\ (\A t \in Threads : Blocked(t) => vS.held[Need(t)] # t)
+
 TraceAccepted ==
     /\ PrintT(<<"TRACE_MATCHED", TLCGet(1), Len(Log)>>)
     /\ TLCGet(1) = Len(Log)
